@@ -128,8 +128,9 @@ func (rp *RuleParser) ParseVariables(vars string) error {
 				// We are starting a XPATH
 				curr = 3
 				curKey = append(curKey, c)
-			case c == '/':
-				// We are starting a regex
+			case c == '/' && len(curKey) == 0:
+				// We are starting a regex: only a key that begins with a slash is one,
+				// a slash inside a plain key (ARGS:a/b) belongs to the key
 				curr = 2
 			case c == '\'':
 				// we start a quoted regex
